@@ -27,18 +27,38 @@ Print Assumptions C04_bypass_needs_internal_and_flag.
 
 (* ... so a login from the network whose key does not match is refused in every state, whatever else it
    says (run id, client_spec, pool count ...), and the state is untouched *)
-Theorem C04_network_login_without_credential_refused : forall H oidc c s conn now gen l,
+Theorem C04_network_login_without_credential_refused : forall H oidc c s conn now gen l0 lplug l,
+  au_lplug_apply lplug l0 = Some l ->     (* l: the login as returned by the Login plugin chain (l0 itself without plugins) *)
   au_login_cred_ok H oidc c now l = false ->
-  exists e, au_step H oidc c s (AuEFirst false conn now gen (AuFLogin l)) = (s, AuORefused (AuRLogin e)).
+  exists e, au_step H oidc c s (AuEFirst false conn now gen (AuFLogin l0 lplug)) = (s, AuORefused (AuRLogin e)).
 Proof. exact au_network_login_refused. Qed.
 Print Assumptions C04_network_login_without_credential_refused.
 
 (* the same on the internal listener unless the flag is set *)
-Theorem C04_login_without_credential_refused : forall H oidc c s internal conn now gen l,
+Theorem C04_login_without_credential_refused : forall H oidc c s internal conn now gen l0 lplug l,
+  au_lplug_apply lplug l0 = Some l ->
   au_login_cred_ok H oidc c now l = false -> internal && asp_always_pass (al_spec l) = false ->
-  exists e, au_step H oidc c s (AuEFirst internal conn now gen (AuFLogin l)) = (s, AuORefused (AuRLogin e)).
+  exists e, au_step H oidc c s (AuEFirst internal conn now gen (AuFLogin l0 lplug)) = (s, AuORefused (AuRLogin e)).
 Proof. exact au_bad_login_refused. Qed.
 Print Assumptions C04_login_without_credential_refused.
+
+(* a Login plugin chain that rejects (or fails) refuses the login — on the internal listener with the always-pass flag
+   as well: the chain is consulted for every Login before RegisterControl *)
+Theorem C04_login_plugin_reject_refused : forall H oidc c s internal conn now gen l0 lplug,
+  au_lplug_apply lplug l0 = None ->
+  au_step H oidc c s (AuEFirst internal conn now gen (AuFLogin l0 lplug)) = (s, AuORefused AuRLoginPlugin).
+Proof. exact au_login_plugin_reject_refused. Qed.
+Print Assumptions C04_login_plugin_reject_refused.
+
+(* OIDC under the configured policy (auth.oidc audience / skipExpiryCheck / skipIssuerCheck): a token that is expired,
+   of another issuer, for another audience or signed by a foreign key is refused at login unless the policy waives
+   exactly that check *)
+Theorem C04_oidc_policy_login_refused : forall H c p tab s conn now gen l0 lplug l t,
+  ac_method c = AuOidc ->
+  au_lplug_apply lplug l0 = Some l -> tab (al_key l) = Some t -> au_token_unacceptable p t now = true ->
+  exists e, au_step H (au_oidc_of_policy p tab) c s (AuEFirst false conn now gen (AuFLogin l0 lplug)) = (s, AuORefused (AuRLogin e)).
+Proof. exact au_policy_login_refused. Qed.
+Print Assumptions C04_oidc_policy_login_refused.
 
 (* any other message type as first message: closed, state untouched *)
 Theorem C04_other_first_message_refused : forall H oidc c s internal conn now gen ty,
@@ -103,12 +123,12 @@ Print Assumptions C04_refused_attempt_erasable.
 (* ---- statements over all histories that need the reachable-state invariant ------------------------------ *)
 
 (* history form: every session of a reachable state stems from a Login event of the history that either carried
-   the credential (valid at the time of that event) or came through the internal listener with the flag set; the session keeps that login
+   the credential (valid at the time of that event; the login is what the Login plugin chain returned) or came through the internal listener with the flag set; the session keeps that login
    message (with the run id filled in) and the listener kind *)
 Theorem C04_session_has_verified_login_event : forall H oidc c evs x,
   In x (at_sessions (au_run H oidc c evs au_init)) ->
-  exists internal conn now gen l0,
-    In (AuEFirst internal conn now gen (AuFLogin l0)) evs /\
+  exists internal conn now gen l00 lplug l0,
+    In (AuEFirst internal conn now gen (AuFLogin l00 lplug)) evs /\ au_lplug_apply lplug l00 = Some l0 /\
     as_login x = au_effective_login l0 gen /\ as_internal x = internal /\
     (au_login_cred_ok H oidc c now l0 = true \/ (internal = true /\ asp_always_pass (al_spec l0) = true)).
 Proof. exact au_session_has_login_event. Qed.
@@ -183,26 +203,36 @@ Print Assumptions C04_session_table_keyed.
    (publickey attempt with proof of possession, key listed) or the login built from the ssh command line carries a
    valid credential (--token) — for every sequence of ssh authentication attempts, incl. one that skips "none" *)
 Theorem C04_ssh_session_implies_key_or_token :
-  forall H oidc c k s conn now gen attempts cmd_token cmd_user ts pool s' rid sid,
-  sg_step H oidc c k s conn now gen attempts cmd_token cmd_user ts pool = (s', SgForwarded (AuOLoginOk rid sid)) ->
+  forall H oidc c k s conn now gen attempts cmd_token cmd_user ts pool lplug s' rid sid,
+  sg_step H oidc c k s conn now gen attempts cmd_token cmd_user ts pool lplug = (s', SgForwarded (AuOLoginOk rid sid)) ->
   sg_key_authorised k attempts \/
-  exists perm, au_login_cred_ok H oidc c now (sg_login H k perm cmd_token cmd_user ts pool) = true.
+  exists perm l, au_lplug_apply lplug (sg_login H k perm cmd_token cmd_user ts pool) = Some l /\
+                 (au_login_cred_ok H oidc c now l = true \/ asp_always_pass (al_spec l) = true /\ lplug <> AuLPlugSame).
 Proof. exact sg_session_implies_key_or_token. Qed.
 Print Assumptions C04_ssh_session_implies_key_or_token.
 
-(* gateway without an authorized_keys file: only the token admits, whatever key the peer offers *)
+(* gateway without an authorized_keys file (and no Login plugin rewriting the login): only the token admits, whatever
+   key the peer offers *)
 Theorem C04_ssh_no_keys_file_needs_token :
   forall H oidc c s conn now gen attempts cmd_token cmd_user ts pool s' rid sid,
-  sg_step H oidc c SgNoFile s conn now gen attempts cmd_token cmd_user ts pool = (s', SgForwarded (AuOLoginOk rid sid)) ->
+  sg_step H oidc c SgNoFile s conn now gen attempts cmd_token cmd_user ts pool AuLPlugSame = (s', SgForwarded (AuOLoginOk rid sid)) ->
   au_login_cred_ok H oidc c now (sg_login H SgNoFile None cmd_token cmd_user ts pool) = true.
 Proof. exact sg_no_file_needs_token. Qed.
 Print Assumptions C04_ssh_no_keys_file_needs_token.
 
+(* a rejecting Login plugin refuses gateway sessions too, authorised key or not *)
+Theorem C04_ssh_login_plugin_reject_refused :
+  forall H oidc c k s conn now gen attempts cmd_token cmd_user ts pool lplug,
+  (forall l, au_lplug_apply lplug l = None) ->
+  forall rid sid, snd (sg_step H oidc c k s conn now gen attempts cmd_token cmd_user ts pool lplug) <> SgForwarded (AuOLoginOk rid sid).
+Proof. exact sg_login_plugin_reject_refused. Qed.
+Print Assumptions C04_ssh_login_plugin_reject_refused.
+
 (* an ssh connection that does not end in a session leaves the server state untouched *)
 Theorem C04_ssh_refused_leaves_state :
-  forall H oidc c k s conn now gen attempts cmd_token cmd_user ts pool,
-  (forall rid sid, snd (sg_step H oidc c k s conn now gen attempts cmd_token cmd_user ts pool) <> SgForwarded (AuOLoginOk rid sid)) ->
-  fst (sg_step H oidc c k s conn now gen attempts cmd_token cmd_user ts pool) = s.
+  forall H oidc c k s conn now gen attempts cmd_token cmd_user ts pool lplug,
+  (forall rid sid, snd (sg_step H oidc c k s conn now gen attempts cmd_token cmd_user ts pool lplug) <> SgForwarded (AuOLoginOk rid sid)) ->
+  fst (sg_step H oidc c k s conn now gen attempts cmd_token cmd_user ts pool lplug) = s.
 Proof. exact sg_refused_leaves_state. Qed.
 Print Assumptions C04_ssh_refused_leaves_state.
 
@@ -247,6 +277,20 @@ Theorem C04_configured_verifier_is_never_always_pass : ga_newverifier_ok gen_new
 Proof. exact ga_new_auth_verifier_shape. Qed.
 Print Assumptions C04_configured_verifier_is_never_always_pass.
 
+(* legacy frps.ini: Convert_ServerCommonConf_To_v1 puts authentication_method, token, the two scope switches and each
+   oidc_* value into the v1 field of the same meaning (field by field or as a composite literal) *)
+Theorem C04_legacy_ini_auth_arrives_unchanged : ga_legacy_auth_ok gen_legacy_server_auth = true.
+Proof. exact ga_legacy_auth_shape. Qed.
+Print Assumptions C04_legacy_ini_auth_arrives_unchanged.
+
+(* handleConnection consults the Login plugin chain exactly once for every Login, unguarded (every listener, always-pass
+   flag or not), and RegisterControl receives what the chain returned; Manager.Login adopts a rewritten content by
+   assignment to the variable it returns *)
+Theorem C04_login_hook_has_modelled_shape :
+  ga_loginhook_ok gen_login_hook = true /\ ga_manager_login_adopt_ok gen_manager_login_adopt = true.
+Proof. exact ga_login_hook_shape. Qed.
+Print Assumptions C04_login_hook_has_modelled_shape.
+
 (* ---- the hypotheses are satisfiable: a concrete history (toy hash H(tok,ts) = tok ++ [ts], token "t") ------ *)
 Definition c04ex_H (tok : bytes) (ts : Z) : bytes := tok ++ [byte_of_Z ts].
 Definition c04ex_oidc (k : bytes) (now : Z) : option bytes := match k with [] => None | _ => if now <? 100 then Some k else None end.
@@ -257,9 +301,9 @@ Definition c04ex_good := {| al_rid := []; al_key := [x74; x07]; al_ts := 7; al_u
 Definition c04ex_claim := {| al_rid := []; al_key := []; al_ts := 7; al_user := []; al_pool := 1;
                              al_spec := {| asp_type := []; asp_always_pass := true |} |}.
 Definition c04ex_hist :=
-  [AuEFirst false 0 0 [x61] (AuFLogin c04ex_good);                 (* accepted from the network: session "a" *)
-   AuEFirst false 1 1 [x62] (AuFLogin c04ex_claim);                (* the network claims the bypass: refused *)
-   AuEFirst true 2 2 [x63] (AuFLogin c04ex_claim);                 (* internal listener + flag: session "c" *)
+  [AuEFirst false 0 0 [x61] (AuFLogin c04ex_good AuLPlugSame);                 (* accepted from the network: session "a" *)
+   AuEFirst false 1 1 [x62] (AuFLogin c04ex_claim AuLPlugSame);                (* the network claims the bypass: refused *)
+   AuEFirst true 2 2 [x63] (AuFLogin c04ex_claim AuLPlugSame);                 (* internal listener + flag: session "c" *)
    AuEFirst false 3 3 [] (AuFWorkConn [x61] [x74; x08] 8 AuPlugSame);         (* valid work connection for "a": pooled *)
    AuEFirst false 4 4 [] (AuFWorkConn [x61] [] 8 AuPlugSame);                 (* no key: refused *)
    AuELater 0 5 (AuLNewProxy [x70] true true);                     (* proxy "p" on session 0 *)
@@ -292,7 +336,7 @@ Definition c04ex_cfg_oidc := {| ac_method := AuOidc; ac_token := []; ac_scopes :
                                 ac_max_pool := 5; ac_hb_timeout := 90 |}.
 Definition c04ex_hist2 :=
   [AuEFirst false 0 0 [x61] (AuFLogin {| al_rid := []; al_key := [x6a]; al_ts := 0; al_user := []; al_pool := 0;
-                                          al_spec := {| asp_type := []; asp_always_pass := false |} |});
+                                          al_spec := {| asp_type := []; asp_always_pass := false |} |} AuLPlugSame);
    AuEFirst false 1 50 [] (AuFWorkConn [x61] [x6a] 0 AuPlugSame);                   (* token still valid: pooled *)
    AuEFirst false 2 150 [] (AuFWorkConn [x61] [x6a] 0 AuPlugSame);                  (* same raw token after expiry: refused *)
    AuELater 0 151 (AuLPing [x6a] 0);                                                (* and in a ping: refused *)
@@ -309,10 +353,10 @@ Proof. vm_compute. reflexivity. Qed.
 (* ssh gateway without authorized_keys, peer goes straight to publickey with a self-made key and a wrong token:
    refused at ssh level; with "none" first and the right token: session *)
 Example C04_ex_ssh :
-  snd (sg_step c04ex_H c04ex_oidc c04ex_cfg SgNoFile au_init 0 0 [x61] [SgPublicKey [x6b] true] [x77] [] 7 1) = SgRefusedAtSsh /\
-  snd (sg_step c04ex_H c04ex_oidc c04ex_cfg SgNoFile au_init 0 0 [x61] [SgNone; SgPublicKey [x6b] true] [x77] [] 7 1)
+  snd (sg_step c04ex_H c04ex_oidc c04ex_cfg SgNoFile au_init 0 0 [x61] [SgPublicKey [x6b] true] [x77] [] 7 1 AuLPlugSame) = SgRefusedAtSsh /\
+  snd (sg_step c04ex_H c04ex_oidc c04ex_cfg SgNoFile au_init 0 0 [x61] [SgNone; SgPublicKey [x6b] true] [x77] [] 7 1 AuLPlugSame)
     = SgForwarded (AuORefused (AuRLogin AuErrTokenLogin)) /\
-  snd (sg_step c04ex_H c04ex_oidc c04ex_cfg SgNoFile au_init 0 0 [x61] [SgNone] [x74] [] 7 1) = SgForwarded (AuOLoginOk [x61] 0) /\
-  snd (sg_step c04ex_H c04ex_oidc c04ex_cfg (SgFile [([x6b], [x75])]) au_init 0 0 [x61] [SgNone; SgPublicKey [x6b] true] [] [] 7 1)
+  snd (sg_step c04ex_H c04ex_oidc c04ex_cfg SgNoFile au_init 0 0 [x61] [SgNone] [x74] [] 7 1 AuLPlugSame) = SgForwarded (AuOLoginOk [x61] 0) /\
+  snd (sg_step c04ex_H c04ex_oidc c04ex_cfg (SgFile [([x6b], [x75])]) au_init 0 0 [x61] [SgNone; SgPublicKey [x6b] true] [] [] 7 1 AuLPlugSame)
     = SgForwarded (AuOLoginOk [x61] 0).
 Proof. vm_compute. repeat split; reflexivity. Qed.
